@@ -1235,7 +1235,8 @@ impl InvoiceRequestContentsWithoutPayerSigningPubkey {
 
 impl Writeable for UnsignedInvoiceRequest {
 	fn write<W: Writer>(&self, writer: &mut W) -> Result<(), io::Error> {
-		WithoutLength(&self.bytes).write(writer)
+		WithoutLength(&self.bytes).write(writer)?;
+		WithoutLength(&self.experimental_bytes).write(writer)
 	}
 }
 
